@@ -316,3 +316,23 @@ func (p *Prog) isConstFn(f *ssa.Function, seen map[*ssa.Function]bool) bool {
 	}
 	return true
 }
+
+// witnessType: the Go type of a witness, when it is the result of the named callee; int otherwise.
+func (p *Prog) witnessType(f *ssa.Function, w *Witness) types.Type {
+	if id := strings.TrimSpace(w.Expr.Text); strings.HasPrefix(id, "callresult") {
+		idx := 0
+		if len(id) > len("callresult") {
+			fmt.Sscanf(id[len("callresult"):], "%d", &idx)
+		}
+		for _, b := range f.Blocks {
+			for _, ins := range b.Instrs {
+				if ci, ok := ins.(ssa.CallInstruction); ok {
+					if c := staticCallee(ci.Common()); c != nil && c.Name() == w.Callee && idx < c.Signature.Results().Len() {
+						return c.Signature.Results().At(idx).Type()
+					}
+				}
+			}
+		}
+	}
+	return types.Typ[types.Int]
+}
